@@ -118,4 +118,108 @@ theorem fmtPos_piecesOf : ∀ (lits : List Str) (pre : Str) (as : List Str), lit
         simp only [List.nil_append] at this
         simp [this, Except.map, bind, Except.bind, pure, Except.pure]
 
+/-! ### mapping formats `l0 %(k1)s l1 … %(kn)s ln` -/
+
+def fmtOfK : List Str → List Str → Str
+  | [], _ => []
+  | [l], _ => l
+  | l :: _ :: _, [] => l
+  | l :: l' :: ls, k :: ks => l ++ ('%' :: '(' :: (k ++ ')' :: 's' :: fmtOfK (l' :: ls) ks))
+
+def piecesOfK (pre : Str) : List Str → List Str → List Piece
+  | [], _ => litP pre
+  | [l], _ => litP (pre ++ l)
+  | l :: _ :: _, [] => litP (pre ++ l)
+  | l :: l' :: ls, k :: ks => litP (pre ++ l) ++ Piece.key k Conv.s :: piecesOfK [] (l' :: ls) ks
+
+theorem takeKey_key : ∀ (k rest acc : Str), '(' ∉ k → ')' ∉ k →
+    takeKey (k ++ ')' :: 's' :: rest) acc = some (acc.reverse ++ k, Conv.s, rest) := by
+  intro k
+  induction k with
+  | nil => intro rest acc _ _; simp [takeKey, conv?]
+  | cons c cs ih =>
+    intro rest acc h1 h2
+    have hc1 : c ≠ '(' := fun e => h1 (by simp [e])
+    have hc2 : c ≠ ')' := fun e => h2 (by simp [e])
+    have hcs1 : '(' ∉ cs := fun hm => h1 (by simp [hm])
+    have hcs2 : ')' ∉ cs := fun hm => h2 (by simp [hm])
+    have step : takeKey (c :: (cs ++ ')' :: 's' :: rest)) acc = takeKey (cs ++ ')' :: 's' :: rest) (c :: acc) := by
+      cases cs with
+      | nil => simp [takeKey, hc1, hc2]
+      | cons d ds => simp [takeKey, hc1, hc2]
+    rw [List.cons_append, step, ih rest (c :: acc) hcs1 hcs2]
+    simp
+
+theorem parseFmt_pct_key (f : Nat) (k r acc : Str) (h1 : '(' ∉ k) (h2 : ')' ∉ k) :
+    parseFmt (f + 1) ('%' :: '(' :: (k ++ ')' :: 's' :: r)) acc =
+      (parseFmt f r []).map (litP acc.reverse ++ [Piece.key k Conv.s] ++ ·) := by
+  simp [parseFmt, takeKey_key k r [] h1 h2, litP]
+
+theorem fmtOfK_length_cons2 (l l' k : Str) (ls ks : List Str) :
+    (fmtOfK (l :: l' :: ls) (k :: ks)).length = l.length + 4 + k.length + (fmtOfK (l' :: ls) ks).length := by
+  simp [fmtOfK]; omega
+
+theorem parseFmt_fmtOfK : ∀ (lits ks : List Str) (f : Nat) (acc : Str), (∀ l ∈ lits, '%' ∉ l) →
+    (∀ k ∈ ks, '(' ∉ k ∧ ')' ∉ k) → lits.length = ks.length + 1 →
+    (fmtOfK lits ks).length < f → parseFmt f (fmtOfK lits ks) acc = some (piecesOfK acc.reverse lits ks) := by
+  intro lits
+  induction lits with
+  | nil => intro ks f acc _ _ hlen; simp at hlen
+  | cons l ls ih =>
+    intro ks f acc h hk hlen hf
+    have hl : '%' ∉ l := h l (by simp)
+    cases ls with
+    | nil =>
+      simp only [fmtOfK] at hf ⊢
+      obtain ⟨k, rfl⟩ : ∃ k, f = (k + 1) + l.length := ⟨f - l.length - 1, by omega⟩
+      have := parseFmt_lit l (k + 1) [] acc hl
+      simp only [List.append_nil] at this
+      rw [this, parseFmt_nil]
+      simp [piecesOfK]
+    | cons l' ls' =>
+      cases ks with
+      | nil => simp at hlen
+      | cons k ks' =>
+        have hk' := hk k (by simp)
+        rw [fmtOfK_length_cons2] at hf
+        simp only [fmtOfK]
+        obtain ⟨j, rfl⟩ : ∃ j, f = (j + 1) + l.length := ⟨f - l.length - 1, by omega⟩
+        rw [parseFmt_lit l (j + 1) _ acc hl, parseFmt_pct_key _ _ _ _ hk'.1 hk'.2]
+        rw [ih ks' j [] (fun x hx => h x (by simp [hx])) (fun x hx => hk x (by simp [hx]))
+          (by simpa using hlen) (by omega)]
+        simp [piecesOfK]
+
+theorem fmtMap_litP (l : Str) (ps : List Piece) (m : List (Str × Str)) :
+    fmtMap (litP l ++ ps) m = (fmtMap ps m).map (l ++ ·) := by
+  unfold litP
+  cases l with
+  | nil => cases h : fmtMap ps m <;> simp [Except.map, h]
+  | cons c cs => simp [fmtMap]
+
+theorem fmtMap_piecesOfK (m : List (Str × Str)) : ∀ (lits : List Str) (pre : Str) (ks : List Str),
+    lits.length = ks.length + 1 → (∀ k ∈ ks, (lookupKey k m).isSome) →
+    fmtMap (piecesOfK pre lits ks) m =
+      .ok (pre ++ interleave lits (ks.map fun k => (lookupKey k m).getD [])) := by
+  intro lits
+  induction lits with
+  | nil => intro pre ks h; simp at h
+  | cons l ls ih =>
+    intro pre ks h hk
+    cases ls with
+    | nil =>
+      have := fmtMap_litP (pre ++ l) [] m
+      simp only [List.append_nil] at this
+      simp [piecesOfK, interleave, this, fmtMap, Except.map]
+    | cons l' ls' =>
+      cases ks with
+      | nil => simp at h
+      | cons k ks' =>
+        have h' : (l' :: ls').length = ks'.length + 1 := by simpa using h
+        obtain ⟨v, hv⟩ := Option.isSome_iff_exists.mp (hk k (by simp))
+        simp only [piecesOfK, fmtMap_litP, fmtMap, hv, convert, interleave, List.map_cons, Option.getD_some]
+        have := ih [] ks' h' (fun x hx => hk x (by simp [hx]))
+        simp only [List.nil_append] at this
+        simp [this, Except.map, bind, Except.bind, pure, Except.pure]
+
+
 end Genshi.MarkupOps
